@@ -381,3 +381,69 @@ func c06ClosureScope(r *Run) {
 	}
 	r.notes = append(r.notes, fmt.Sprintf("closure of canonical locations (exhaustive): %d canonical 3-part joins over %d parts x i in %v x n in %v (shift for n >= 0, expand) + reverse / normalize at two lengths; %d canonical 4-part joins over %d parts; every 3-part argument list for Join", n3, len(parts3), is, ns, n4, len(parts4)))
 }
+
+// c06EmptySpanScope: canonical joins that hold an EMPTY or inverted span — values that only ParseLocation
+// builds (parseRange / parseAmbiguous fill the struct literal, `5..4` is Ranged{4,4}, `1.0` is Ambiguous{0,0};
+// PartialRange panics on them) — under an insertion Expand(i, n), n >= 1.  Expand only: Normalize / Reverse
+// go through PartialRange and panic on such a span.
+//
+//	(1) the witness of Gts.C06.expand_insert_canon_full_refuted and the texts of empty_ranged_from_parser;
+//	(2) every canonical 3-part join over points, between-sites, ALL Ranged{s,e} and Ambiguous{s,e} with
+//	    0 <= s, e <= 2 that is not well formed: both sides answer every case (correspondence); oracle
+//	    (Gts.C06.expand_insert_empty_ranged_drops, the decided scope): when every AMBIGUOUS span is non-empty
+//	    the result is canonical.
+func c06EmptySpanScope(r *Run) {
+	w := "loc.expand (J (P 0) (A 0 0) (P 0)) 1 1"
+	if got := r.op(w); got != "(J (P 0) (P 0))" {
+		r.fail(Failure{Oracle: "the witness of Gts.C06.expand_insert_canon_full_refuted reproduces", Op: w, Got: got, Want: "(J (P 0) (P 0))"})
+	}
+	for _, t := range []string{"join(1,1.0,1)", "5..4", "5..3", "1.0"} {
+		r.op("loc.parse " + encStr(t))
+	}
+	var parts []gts.Location
+	for p := 0; p <= 2; p++ {
+		parts = append(parts, gts.Between(p), gts.Point(p))
+		for e := 0; e <= 2; e++ {
+			parts = append(parts, gts.Ranged{Start: p, End: e}, gts.Ambiguous{Start: p, End: e})
+		}
+	}
+	ambWf := func(l gts.Location) bool {
+		for _, u := range leaves(l) {
+			if v, ok := u.(gts.Ambiguous); ok && v.Start >= v.End {
+				return false
+			}
+		}
+		return true
+	}
+	n := 0
+	for _, a := range parts {
+		for _, b := range parts {
+			for _, c := range parts {
+				l := gts.Joined{a, b, c}
+				if wellFormed(l) || !canonP(l) {
+					continue
+				}
+				n++
+				for _, i := range []int{0, 1, 2, 3} {
+					for _, k := range []int{1, 2} {
+						line := fmt.Sprintf("loc.expand %s %d %d", encLoc(l), i, k)
+						r.op(line)
+						r.op(fmt.Sprintf("k3.expand %s %d %d", encLoc(l), i, k))
+						got := l.Expand(i, k)
+						r.eval("c|"+line, true)
+						switch {
+						case canonP(got):
+							r.count("closure/expand-empty-span/canonical")
+						case ambWf(l):
+							r.fail(Failure{Oracle: "an insertion keeps a canonical join canonical when every ambiguous span is non-empty, empty / inverted Ranged included (Gts.C06.expand_insert_empty_ranged_drops, decided scope)",
+								Op: line, Got: encLoc(got), Want: "a canonical location"})
+						default:
+							r.count("closure/expand-empty-span/empty-ambiguous/not-canonical")
+						}
+					}
+				}
+			}
+		}
+	}
+	r.notes = append(r.notes, fmt.Sprintf("insertions on canonical joins with an empty or inverted span (parser-only values): %d 3-part joins over %d parts x i in 0..3 x n in 1..2", n, len(parts)))
+}
